@@ -28,7 +28,7 @@ DECIDE = {"range-misses-feasible-value", "unmentioned-field-narrowed", "feasible
 
 
 def plan(tier):
-    return {"ncases": 560, "budget_s": 85} if tier == "quick" else {"ncases": 6000, "budget_s": 1200}
+    return {"ncases": 800, "budget_s": 85} if tier == "quick" else {"ncases": 6000, "budget_s": 1200}
 
 
 def gen_case(rng, tier, idx):
